@@ -163,9 +163,9 @@ DisposeP(p) ==
      /\ Log([a |-> "DisposeP", p |-> p])
 
 \* SEDP data: update_subscription / update_publication + remote_reader_discovered / remote_writer_discovered.
-\* (driver assumption: endpoints are announced by participants that are present)
+\* The participant need not be known (its first SPDP announcement may have been lost): the endpoint is stored and
+\* matched all the same; it has no lease of its own until its participant is heard.
 Announce(e) ==
-  /\ pProx[Owner[e]]
   /\ LET extN == [ext EXCEPT ![e] = TRUE]
          w == Discovered("w", WSide, e)
          r == Discovered("r", RSide, e)
@@ -200,7 +200,7 @@ View == <<dabsVars, implVars, steps>>   \* steps kept: the bound is then exact w
 \* refinement facts relating the tables of the code to the abstract state
 Inv_ParticipantsAgree == \A p \in P : pProx[p] = known[p]
 Inv_AtticOnlyOfAbsent == \A e \in E : att[e] => ~pProx[Owner[e]]
-Inv_MatchedAreKnown   == \A e \in wProx \cup rProx : ext[e] /\ pProx[Owner[e]]
+Inv_MatchedAreKnown   == \A e \in wProx \cup rProx : ext[e]
 Inv_LifeSignsAgree    == \A p \in P : pProx[p] => pLife[p] = lastSign[p]
 
 GenEdge == (GenK > 0 /\ RandomElement(1..GenK) = 1) => PrintT("REPLAY " \o ToJson([acts |-> trail']))
